@@ -168,6 +168,23 @@ impl<'a> Walker<'a> {
         }
     }
 
+    /// Is the type the generator emits for this registry type `Copy`? Primitives except strings, and
+    /// arrays, tuples and compact wrappers of such. Generated structs and enums are not (no settings of this
+    /// check derive Copy), nor are vectors, strings and bit sequences.
+    fn is_rust_copy(&self, id: u32, depth: usize) -> bool {
+        if depth > 16 {
+            return false;
+        }
+        let Some(ty) = self.reg.resolve(id) else { return false };
+        match &ty.type_def {
+            TypeDef::Primitive(p) => !matches!(p, scale_info::TypeDefPrimitive::Str),
+            TypeDef::Array(a) => self.is_rust_copy(a.type_param.id, depth + 1),
+            TypeDef::Tuple(t) => t.fields.iter().all(|f| self.is_rust_copy(f.id, depth + 1)),
+            TypeDef::Compact(c) => self.is_rust_copy(c.type_param.id, depth + 1),
+            _ => false,
+        }
+    }
+
     fn value(&mut self, e: &syn::Expr, id: u32, at: &str) -> Result<(), String> {
         let e = match e {
             syn::Expr::Group(g) => &*g.expr,
@@ -237,6 +254,13 @@ impl<'a> Walker<'a> {
                     };
                     if n != a.len as u64 {
                         return Err(format!("{at}: array literal repeats {n} times, type has length {}", a.len));
+                    }
+                    // `[e; n]` with n >= 2 is an expression of the array type only if the element type is Copy
+                    if n >= 2 && !self.is_rust_copy(a.type_param.id, 0) {
+                        return Err(format!(
+                            "{at}: repeat expression `[e; {n}]` for an element type that is not Copy (`{}`)",
+                            tokens_nospace(&*r.expr)
+                        ));
                     }
                     self.value(&r.expr, a.type_param.id, &format!("{at}[;]"))
                 }
